@@ -1,18 +1,1229 @@
-//! C10 — not built yet (stub).
+//! C10 — the cell store stays coherent under any history of operations.
+//! E2: breadth-first exploration of operation histories on a REAL `Worksheet` (inside a real `Spreadsheet`),
+//! the invariant (a brute-force scan of the key set of the cell map against every lookup / listing / index
+//! based observation, the row table and the emitted sheet XML) is evaluated in every reached state.
 use crate::common::*;
+use crate::dump;
+use crate::e1::*;
+use crate::e2::*;
 use crate::pool::*;
-use serde_json::Value;
+use serde_json::{json, Value};
+use std::cell::RefCell;
+use std::collections::{BTreeMap, BTreeSet, HashSet};
+use std::fmt::Write as _;
+use std::io::Read;
+use std::panic::{catch_unwind, AssertUnwindSafe};
+use umya_spreadsheet::*;
 
 pub fn entry() -> crate::Entry {
     crate::Entry { id: "C10", run, space, replay }
 }
-pub fn space(_tier: Tier, _id: &str) -> Option<Box<dyn Space>> {
-    None
+
+/// (row, col) — the order of the cell map's key and of the row-major listing.
+type RC = (u32, u32);
+
+const FAR: (u32, u32) = (28, 11); // (col, row): two-letter column AB, two-digit row
+const SCAN_ROWS: u32 = 26; // by-row queries cover 0..=max(SCAN_ROWS, highest seen + 1)
+const SCAN_COLS: u32 = 42;
+
+// ---------------------------------------------------------------------------------------------
+// alphabet
+
+#[derive(Clone, Debug)]
+enum Op {
+    SetValue { c: u32, r: u32, v: &'static str },
+    SetCell { c: u32, r: u32, v: &'static str, st: u8 },
+    Remove { c: u32, r: u32 },
+    SetStyle { c: u32, r: u32, st: u8 },
+    StyleRange { range: &'static str, st: u8 },
+    InsRow { p: u32, n: u32 },
+    InsCol { p: u32, n: u32 },
+    RemRow { p: u32, n: u32 },
+    RemCol { p: u32, n: u32 },
+    Move { range: &'static str, dr: i32, dc: i32 },
+    Copy { range: &'static str, dr: i32, dc: i32 },
+    Cleanup,
+    CopyRowStyle { src: u32, dst: u32, from: Option<u32>, to: Option<u32> },
+    CopyColStyle { src: u32, dst: u32, from: Option<u32>, to: Option<u32> },
 }
-fn replay(_tier: Tier, _case: &Value) -> Vec<Violation> {
-    vec![]
+
+impl Op {
+    fn kind(&self) -> &'static str {
+        match self {
+            Op::SetValue { .. } => "get_cell_mut.set_value",
+            Op::SetCell { .. } => "set_cell",
+            Op::Remove { .. } => "remove_cell",
+            Op::SetStyle { .. } => "set_style",
+            Op::StyleRange { range, .. } => {
+                let b = range.as_bytes()[0];
+                if b.is_ascii_digit() {
+                    "set_style_by_range:rows"
+                } else if range.bytes().any(|x| x.is_ascii_digit()) {
+                    "set_style_by_range:cells"
+                } else {
+                    "set_style_by_range:cols"
+                }
+            }
+            Op::InsRow { .. } => "insert_new_row",
+            Op::InsCol { .. } => "insert_new_column_by_index",
+            Op::RemRow { .. } => "remove_row",
+            Op::RemCol { .. } => "remove_column_by_index",
+            Op::Move { .. } => "move_range",
+            Op::Copy { .. } => "copy_range",
+            Op::Cleanup => "cleanup",
+            Op::CopyRowStyle { .. } => "copy_row_styling",
+            Op::CopyColStyle { .. } => "copy_col_styling",
+        }
+    }
+    fn json(&self) -> Value {
+        match self {
+            Op::SetValue { c, r, v } => json!({"op":"get_cell_mut.set_value","at": a1(*c,*r), "value": v}),
+            Op::SetCell { c, r, v, st } => json!({"op":"set_cell","at": a1(*c,*r), "value": v, "style": st}),
+            Op::Remove { c, r } => json!({"op":"remove_cell","at": a1(*c,*r)}),
+            Op::SetStyle { c, r, st } => json!({"op":"set_style","at": a1(*c,*r), "style": st}),
+            Op::StyleRange { range, st } => json!({"op":"set_style_by_range","range": range, "style": st}),
+            Op::InsRow { p, n } => json!({"op":"insert_new_row","at": p, "n": n}),
+            Op::InsCol { p, n } => json!({"op":"insert_new_column_by_index","at": p, "n": n}),
+            Op::RemRow { p, n } => json!({"op":"remove_row","at": p, "n": n}),
+            Op::RemCol { p, n } => json!({"op":"remove_column_by_index","at": p, "n": n}),
+            Op::Move { range, dr, dc } => json!({"op":"move_range","range": range, "rows": dr, "cols": dc}),
+            Op::Copy { range, dr, dc } => json!({"op":"copy_range","range": range, "rows": dr, "cols": dc}),
+            Op::Cleanup => json!({"op":"cleanup"}),
+            Op::CopyRowStyle { src, dst, from, to } => json!({"op":"copy_row_styling","src": src, "dst": dst, "start_col": from, "end_col": to}),
+            Op::CopyColStyle { src, dst, from, to } => json!({"op":"copy_col_styling","src": src, "dst": dst, "start_row": from, "end_row": to}),
+        }
+    }
 }
-fn run(_ctx: &Ctx) -> i32 {
-    eprintln!("MACHINERY: C10 is not built yet");
-    2
+
+/// Style 0: nothing set ("default"); 1: solid red fill (visually non-empty); 2: bold font (visually empty, but a style).
+fn style(i: u8) -> Style {
+    let mut s = Style::default();
+    match i {
+        1 => {
+            s.set_background_color_solid("FFFF0000");
+        }
+        2 => {
+            s.get_font_mut().set_bold(true);
+        }
+        _ => {}
+    }
+    s
+}
+
+/// The full alphabet (47 operations), simplest first.
+fn full_alphabet() -> Vec<Op> {
+    let mut v = vec![
+        // get_cell_mut(c).set_value(..): text, text, number, blank (creates a blank unstyled cell), far cell
+        Op::SetValue { c: 1, r: 1, v: "a" },
+        Op::SetValue { c: 2, r: 2, v: "b" },
+        Op::SetValue { c: 3, r: 3, v: "7" },
+        Op::SetValue { c: 1, r: 3, v: "" },
+        Op::SetValue { c: FAR.0, r: FAR.1, v: "f" },
+        // set_cell
+        Op::SetCell { c: 2, r: 1, v: "s", st: 0 },
+        Op::SetCell { c: 2, r: 2, v: "", st: 0 }, // overwrite / create with a default cell
+        Op::SetCell { c: FAR.0 - 1, r: FAR.1 + 1, v: "g", st: 2 },
+        // remove_cell
+        Op::Remove { c: 1, r: 1 },
+        Op::Remove { c: 2, r: 2 },
+        Op::Remove { c: 3, r: 3 },
+        Op::Remove { c: FAR.0, r: FAR.1 },
+        // set_style
+        Op::SetStyle { c: 1, r: 1, st: 1 },
+        Op::SetStyle { c: 2, r: 3, st: 2 },
+        // set_style_by_range: cell ranges, whole rows, whole columns
+        Op::StyleRange { range: "A1:B2", st: 2 },
+        Op::StyleRange { range: "B2:C3", st: 1 },
+        Op::StyleRange { range: "1:2", st: 1 },
+        Op::StyleRange { range: "2:2", st: 1 },
+        Op::StyleRange { range: "A:B", st: 2 },
+    ];
+    for p in [1u32, 2] {
+        for n in [1u32, 2] {
+            v.push(Op::InsRow { p, n });
+        }
+    }
+    for p in [1u32, 2] {
+        for n in [1u32, 2] {
+            v.push(Op::InsCol { p, n });
+        }
+    }
+    for p in [1u32, 2] {
+        for n in [1u32, 2] {
+            v.push(Op::RemRow { p, n });
+        }
+    }
+    for p in [1u32, 2] {
+        for n in [1u32, 2] {
+            v.push(Op::RemCol { p, n });
+        }
+    }
+    v.extend([
+        Op::Move { range: "A1:B2", dr: 1, dc: 1 }, // overlapping source/destination
+        Op::Move { range: "B2:C3", dr: -1, dc: -1 },
+        Op::Move { range: "A1:C1", dr: 2, dc: 0 },
+        Op::Move { range: "B2", dr: FAR.1 as i32 - 2, dc: FAR.0 as i32 - 2 }, // onto the far cell
+        Op::Copy { range: "A1:B2", dr: 1, dc: 1 },
+        Op::Copy { range: "B2:C3", dr: -1, dc: -1 },
+        Op::Copy { range: "A1:A3", dr: 0, dc: 2 },
+        Op::Cleanup,
+        Op::CopyRowStyle { src: 1, dst: 2, from: None, to: None },
+        Op::CopyRowStyle { src: 2, dst: 4, from: Some(1), to: Some(3) },
+        Op::CopyColStyle { src: 1, dst: 2, from: None, to: None },
+        Op::CopyColStyle { src: 3, dst: 1, from: Some(1), to: Some(2) },
+    ]);
+    v
+}
+
+/// 12-operation sub-alphabet for the deep run (the operations that restructure the store + the simplest writers).
+fn deep_alphabet() -> Vec<Op> {
+    vec![
+        Op::SetValue { c: 1, r: 1, v: "a" },
+        Op::SetValue { c: 1, r: 3, v: "" },
+        Op::SetCell { c: 2, r: 1, v: "s", st: 0 },
+        Op::Remove { c: 2, r: 2 },
+        Op::SetStyle { c: 2, r: 3, st: 2 },
+        Op::InsRow { p: 2, n: 1 },
+        Op::RemRow { p: 1, n: 1 },
+        Op::InsCol { p: 1, n: 2 },
+        Op::RemCol { p: 2, n: 1 },
+        Op::Move { range: "A1:B2", dr: 1, dc: 1 },
+        Op::Copy { range: "B2:C3", dr: -1, dc: -1 },
+        Op::Cleanup,
+    ]
+}
+
+fn apply(ws: &mut Worksheet, op: &Op) {
+    match op {
+        Op::SetValue { c, r, v } => {
+            ws.get_cell_mut((*c, *r)).set_value(*v);
+        }
+        Op::SetCell { c, r, v, st } => {
+            let mut cell = Cell::default();
+            cell.set_coordinate((*c, *r));
+            if !v.is_empty() {
+                cell.set_value(*v);
+            }
+            if *st > 0 {
+                cell.set_style(style(*st));
+            }
+            ws.set_cell(cell);
+        }
+        Op::Remove { c, r } => {
+            ws.remove_cell((*c, *r));
+        }
+        Op::SetStyle { c, r, st } => {
+            ws.set_style((*c, *r), style(*st));
+        }
+        Op::StyleRange { range, st } => {
+            ws.set_style_by_range(range, style(*st));
+        }
+        Op::InsRow { p, n } => ws.insert_new_row(p, n),
+        Op::InsCol { p, n } => ws.insert_new_column_by_index(p, n),
+        Op::RemRow { p, n } => ws.remove_row(p, n),
+        Op::RemCol { p, n } => ws.remove_column_by_index(p, n),
+        Op::Move { range, dr, dc } => {
+            ws.move_range(range, dr, dc);
+        }
+        Op::Copy { range, dr, dc } => {
+            ws.copy_range(range, dr, dc);
+        }
+        Op::Cleanup => ws.cleanup(),
+        Op::CopyRowStyle { src, dst, from, to } => ws.copy_row_styling(src, dst, from.as_ref(), to.as_ref()),
+        Op::CopyColStyle { src, dst, from, to } => ws.copy_col_styling(src, dst, from.as_ref(), to.as_ref()),
+    }
+}
+
+// ---------------------------------------------------------------------------------------------
+// seeds
+
+const SEEDS: [&str; 4] = ["empty", "dense-3x3", "sparse+far", "loaded-from-saved-file"];
+
+fn seed_book(i: usize) -> Spreadsheet {
+    let mut b = new_file();
+    match i {
+        0 => {}
+        1 => {
+            let ws = b.get_sheet_mut(&0).unwrap();
+            for r in 1..=3u32 {
+                for c in 1..=3u32 {
+                    ws.get_cell_mut((c, r)).set_value(format!("d{}{}", r, c));
+                }
+            }
+            ws.get_cell_mut((1, 3)).set_value("13");
+            ws.set_style((2, 2), style(1));
+            ws.set_style((3, 1), style(2));
+        }
+        2 => {
+            let ws = b.get_sheet_mut(&0).unwrap();
+            ws.get_cell_mut((1, 1)).set_value("a1");
+            ws.get_cell_mut((3, 2)).set_value("32");
+            ws.set_style((2, 3), style(2)); // styled blank
+            ws.get_cell_mut((3, 1)); // blank unstyled ("default") cell
+            ws.get_cell_mut(FAR).set_value("far");
+            ws.get_row_dimension_mut(&2).set_height(30.0);
+            ws.get_column_dimension_by_number_mut(&2).set_width(20.0);
+            ws.add_merge_cells("AD20:AE20"); // away from the removal bands (merges inside a removed band are a C07 matter)
+        }
+        _ => {
+            {
+                let ws = b.get_sheet_mut(&0).unwrap();
+                ws.get_cell_mut((1, 1)).set_value("s");
+                ws.get_cell_mut((2, 1)).set_value("t");
+                ws.get_cell_mut((2, 2)).set_value("7");
+                ws.get_cell_mut((3, 3)).set_formula("B2+1");
+                ws.set_style((1, 3), style(1)); // styled blank
+                ws.get_cell_mut((3, 2)).set_value("s"); // shared string used twice
+                ws.get_cell_mut(FAR).set_value("far");
+                ws.get_cell_mut((FAR.0 - 1, FAR.1 + 1)).set_value("99");
+                ws.get_row_dimension_mut(&3).set_height(24.0);
+                ws.get_row_dimension_mut(&5).set_height(18.0); // a row without cells
+                ws.get_column_dimension_by_number_mut(&1).set_width(12.0);
+            }
+            let bytes = dump::save_bytes(&b, false).expect("seed save");
+            b = dump::load_bytes(&bytes, true).expect("seed load");
+        }
+    }
+    b
+}
+
+// ---------------------------------------------------------------------------------------------
+// small independent codecs (C17 verifies the library's)
+
+fn b26(mut n: u32) -> String {
+    let mut v = vec![];
+    while n > 0 {
+        n -= 1;
+        v.push((b'A' + (n % 26) as u8) as char);
+        n /= 26;
+    }
+    v.iter().rev().collect()
+}
+fn a1(col: u32, row: u32) -> String {
+    format!("{}{}", b26(col), row)
+}
+/// "AB12" -> (row, col); None if not of that form.
+fn parse_a1(s: &str) -> Option<RC> {
+    let b = s.as_bytes();
+    let mut i = 0;
+    let mut col: u32 = 0;
+    while i < b.len() && b[i].is_ascii_uppercase() {
+        col = col.checked_mul(26)?.checked_add((b[i] - b'A') as u32 + 1)?;
+        i += 1;
+    }
+    if i == 0 || i == b.len() {
+        return None;
+    }
+    let mut row: u32 = 0;
+    for &x in &b[i..] {
+        if !x.is_ascii_digit() {
+            return None;
+        }
+        row = row.checked_mul(10)?.checked_add((x - b'0') as u32)?;
+    }
+    Some((row, col))
+}
+
+fn guard<T>(f: impl FnOnce() -> T) -> Result<T, String> {
+    catch_unwind(AssertUnwindSafe(f)).map_err(|e| panic_class(&panic_msg(&e)))
+}
+
+fn own(c: &Cell) -> RC {
+    (*c.get_coordinate().get_row_num(), *c.get_coordinate().get_col_num())
+}
+
+// ---------------------------------------------------------------------------------------------
+// observations (taken once per state; used by the invariant and by the state key)
+
+struct Obs {
+    /// brute-force scan: (map key, the value's own coordinate), sorted by key
+    cells: Vec<(RC, RC)>,
+    unsorted: Result<Vec<RC>, String>,
+    sorted: Result<Vec<RC>, String>,
+    by_row: Vec<(u32, Result<Vec<RC>, String>)>,
+    by_row_hm: Vec<(u32, Result<Vec<(u32, RC)>, String>)>,
+    by_col: Vec<(u32, Result<Vec<RC>, String>)>,
+    by_col_hm: Vec<(u32, Result<Vec<(u32, RC)>, String>)>,
+    highest: Result<(u32, u32), String>,
+    highest_c: Result<u32, String>,
+    highest_r: Result<u32, String>,
+    dim: Result<String, String>,
+    /// row table as the writer sees it: (map key, the row's own number)
+    rows: Vec<(u32, u32)>,
+}
+
+fn observe(ws: &Worksheet) -> Obs {
+    let mut cells: Vec<(RC, RC)> = ws.get_collection_to_hashmap().iter().map(|(k, c)| (*k, own(c))).collect();
+    cells.sort();
+    let unsorted = guard(|| ws.get_cell_collection().iter().map(|c| own(c)).collect::<Vec<_>>());
+    let sorted = guard(|| ws.get_cell_collection_sorted().iter().map(|c| own(c)).collect::<Vec<_>>());
+    let highest = guard(|| ws.get_highest_column_and_row());
+    let highest_c = guard(|| ws.get_highest_column());
+    let highest_r = guard(|| ws.get_highest_row());
+    let dim = guard(|| ws.calculate_worksheet_dimension());
+    let mut rows: Vec<(u32, u32)> = ws.get_row_dimensions_to_hashmap().iter().map(|(k, r)| (*k, *r.get_row_num())).collect();
+    rows.sort();
+    // query window: everything any structure mentions, plus one beyond, at least the fixed scan area
+    let mut maxr = SCAN_ROWS;
+    let mut maxc = SCAN_COLS;
+    let mut see = |rc: &RC| {
+        maxr = maxr.max(rc.0.saturating_add(1));
+        maxc = maxc.max(rc.1.saturating_add(1));
+    };
+    for (k, o) in &cells {
+        see(k);
+        see(o);
+    }
+    if let Ok(v) = &sorted {
+        v.iter().for_each(&mut see);
+    }
+    if let Ok(v) = &unsorted {
+        v.iter().for_each(&mut see);
+    }
+    if let Ok((c, r)) = &highest {
+        see(&(*r, *c));
+    }
+    let maxr = maxr.min(4096);
+    let maxc = maxc.min(4096);
+    let mut by_row = vec![];
+    let mut by_row_hm = vec![];
+    for r in 0..=maxr {
+        by_row.push((r, guard(|| ws.get_collection_by_row(&r).iter().map(|c| own(c)).collect::<Vec<_>>())));
+        by_row_hm.push((
+            r,
+            guard(|| {
+                let mut v: Vec<(u32, RC)> = ws.get_collection_by_row_to_hashmap(&r).iter().map(|(k, c)| (*k, own(c))).collect();
+                v.sort();
+                v
+            }),
+        ));
+    }
+    let mut by_col = vec![];
+    let mut by_col_hm = vec![];
+    for c in 0..=maxc {
+        by_col.push((c, guard(|| ws.get_collection_by_column(&c).iter().map(|x| own(x)).collect::<Vec<_>>())));
+        by_col_hm.push((
+            c,
+            guard(|| {
+                let mut v: Vec<(u32, RC)> = ws.get_collection_by_column_to_hashmap(&c).iter().map(|(k, x)| (*k, own(x))).collect();
+                v.sort();
+                v
+            }),
+        ));
+    }
+    Obs { cells, unsorted, sorted, by_row, by_row_hm, by_col, by_col_hm, highest, highest_c, highest_r, dim, rows }
+}
+
+// ---------------------------------------------------------------------------------------------
+// the invariant
+
+struct Out<'a> {
+    tags: &'a [String],
+    seen: HashSet<(String, String)>,
+    out: &'a mut Vec<Violation>,
+}
+impl<'a> Out<'a> {
+    /// at most one violation per (clause, symptom) and state
+    fn add(&mut self, clause: &str, symptom: &str, detail: String) {
+        if self.seen.insert((clause.to_string(), symptom.to_string())) {
+            let t: Vec<&str> = self.tags.iter().map(|s| s.as_str()).collect();
+            self.out.push(Violation::new(clause, symptom, &t, Value::Null, detail));
+        }
+    }
+}
+
+fn fmt_rc(rc: &RC) -> String {
+    if rc.0 >= 1 && rc.1 >= 1 {
+        a1(rc.1, rc.0)
+    } else {
+        format!("(row {}, col {})", rc.0, rc.1)
+    }
+}
+fn fmt_list(v: &[RC]) -> String {
+    let s: Vec<String> = v.iter().take(40).map(fmt_rc).collect();
+    format!("[{}{}]", s.join(" "), if v.len() > 40 { " …" } else { "" })
+}
+
+/// `listed` must enumerate exactly `want` (sorted, no duplicates); `ordered`: also in that order.
+fn cmp_listing(o: &mut Out, clause: &str, what: &dyn Fn() -> String, listed: &Result<Vec<RC>, String>, want: &[RC], ordered: bool) {
+    // fast path (no allocation): identical sequence, or identical after sorting when the order is free
+    if let Ok(v) = listed {
+        if v.as_slice() == want {
+            return;
+        }
+        if !ordered && v.len() == want.len() {
+            let mut l = v.clone();
+            l.sort();
+            if l.as_slice() == want {
+                return;
+            }
+        }
+    }
+    let what = what();
+    let what = what.as_str();
+    let listed = match listed {
+        Err(m) => {
+            o.add(clause, &format!("panic:{}", m), format!("{} panicked: {}", what, m));
+            return;
+        }
+        Ok(v) => v,
+    };
+    let mut l = listed.clone();
+    l.sort();
+    let n0 = l.len();
+    l.dedup();
+    if l.len() != n0 {
+        o.add(clause, "duplicate", format!("{} lists a cell twice: {} (existing cells {})", what, fmt_list(listed), fmt_list(want)));
+    }
+    let ls: BTreeSet<RC> = l.iter().copied().collect();
+    let ws: BTreeSet<RC> = want.iter().copied().collect();
+    let lost: Vec<RC> = ws.difference(&ls).copied().collect();
+    let phantom: Vec<RC> = ls.difference(&ws).copied().collect();
+    if !lost.is_empty() {
+        o.add(clause, "lost", format!("{} does not list existing cell(s) {}: listed {} existing {}", what, fmt_list(&lost), fmt_list(listed), fmt_list(want)));
+    }
+    if !phantom.is_empty() {
+        o.add(clause, "phantom", format!("{} lists cell(s) {} that do not exist: listed {} existing {}", what, fmt_list(&phantom), fmt_list(listed), fmt_list(want)));
+    }
+    if ordered && lost.is_empty() && phantom.is_empty() && l.len() == n0 && listed.as_slice() != want {
+        o.add(clause, "not-row-major", format!("{} is not sorted by row then column: {}", what, fmt_list(listed)));
+    }
+}
+
+fn value_sig(v: &CellValue) -> String {
+    format!("{}|{}|{}|{}", dump::raw_kind(v.get_raw_value()), v.get_data_type(), v.get_value(), v.get_formula())
+}
+
+fn value_unset(v: &CellValue) -> bool {
+    matches!(v.get_raw_value(), CellRawValue::Empty) && !v.is_formula()
+}
+
+fn check_range(o: &mut Out, ws: &Worksheet, s: &BTreeSet<RC>, r0: u32, c0: u32, r1: u32, c1: u32) {
+    let range = format!("{}:{}", a1(c0, r0), a1(c1, r1));
+    let vals: Vec<&CellValue> = match guard(|| ws.get_cell_value_by_range(&range)) {
+        Err(m) => {
+            o.add("by-range", &format!("panic:{}", m), format!("get_cell_value_by_range({:?}) panicked: {}", range, m));
+            return;
+        }
+        Ok(v) => v,
+    };
+    let n = (r1 - r0 + 1) as usize * (c1 - c0 + 1) as usize;
+    if vals.len() != n {
+        o.add("by-range", "length", format!("get_cell_value_by_range({:?}) returned {} values for {} positions", range, vals.len(), n));
+        return;
+    }
+    let map = ws.get_collection_to_hashmap();
+    let mut i = 0;
+    // positions are listed row by row (the documented order of this accessor)
+    for r in r0..=r1 {
+        for c in c0..=c1 {
+            let got = vals[i];
+            i += 1;
+            if s.contains(&(r, c)) {
+                let want = map.get(&(r, c)).unwrap().get_cell_value();
+                if got != want {
+                    o.add("by-range", if value_unset(got) { "lost" } else { "wrong-value" }, format!("get_cell_value_by_range({:?}): the cell at {} holds {:?} but the value listed for that position is {:?}", range, a1(c, r), value_sig(want), value_sig(got)));
+                }
+            } else if !value_unset(got) {
+                o.add("by-range", "phantom", format!("get_cell_value_by_range({:?}): no cell exists at {} but the value listed for that position is {:?}", range, a1(c, r), value_sig(got)));
+            }
+        }
+    }
+}
+
+fn check(obs: &Obs, ws: &Worksheet, tags: &[String], out: &mut Vec<Violation>) {
+    let mut o = Out { tags, seen: HashSet::new(), out };
+    let s: BTreeSet<RC> = obs.cells.iter().map(|(k, _)| *k).collect();
+    let sv: Vec<RC> = s.iter().copied().collect();
+    // 1. every value's own coordinate equals its key
+    for (k, own) in &obs.cells {
+        if k != own {
+            o.add("own-coordinate", "key!=own", format!("the cell stored under {} reports coordinate {}", fmt_rc(k), fmt_rc(own)));
+        }
+    }
+    // 2. lookup by coordinate: found exactly when it exists, and reports that coordinate
+    let mut probe: BTreeSet<RC> = s.clone();
+    for r in 1..=4u32 {
+        for c in 1..=4u32 {
+            probe.insert((r, c));
+        }
+    }
+    for dr in 0..=2u32 {
+        for dc in 0..=2u32 {
+            probe.insert((FAR.1 + dr - 1, FAR.0 + dc - 1));
+        }
+    }
+    for (_, own) in &obs.cells {
+        probe.insert(*own);
+    }
+    if let Ok(v) = &obs.sorted {
+        probe.extend(v.iter().copied());
+    }
+    for p in &probe {
+        let (row, col) = *p;
+        match guard(|| ws.get_cell((col, row)).map(own)) {
+            Err(m) => o.add("lookup", &format!("panic:{}", m), format!("get_cell({}) panicked: {}", fmt_rc(p), m)),
+            Ok(found) => match (found, s.contains(p)) {
+                (None, true) => o.add("lookup", "missing", format!("get_cell({}) is None but the cell exists", fmt_rc(p))),
+                (Some(x), false) => o.add("lookup", "phantom", format!("get_cell({}) found a cell (reporting {}) that does not exist", fmt_rc(p), fmt_rc(&x))),
+                (Some(x), true) if x != *p => o.add("lookup", "wrong-cell", format!("get_cell({}) found a cell that reports {}", fmt_rc(p), fmt_rc(&x))),
+                _ => {}
+            },
+        }
+    }
+    // 3. listings
+    cmp_listing(&mut o, "listing", &|| "get_cell_collection()".to_string(), &obs.unsorted, &sv, false);
+    cmp_listing(&mut o, "listing-sorted", &|| "get_cell_collection_sorted()".to_string(), &obs.sorted, &sv, true);
+    for (r, l) in &obs.by_row {
+        let want: Vec<RC> = sv.iter().filter(|x| x.0 == *r).copied().collect();
+        cmp_listing(&mut o, "by-row", &|| format!("get_collection_by_row({})", r), l, &want, false);
+    }
+    for (c, l) in &obs.by_col {
+        let want: Vec<RC> = sv.iter().filter(|x| x.1 == *c).copied().collect();
+        cmp_listing(&mut o, "by-column", &|| format!("get_collection_by_column({})", c), l, &want, false);
+    }
+    for (r, l) in &obs.by_row_hm {
+        if matches!(l, Ok(v) if v.is_empty()) && !sv.iter().any(|x| x.0 == *r) {
+            continue;
+        }
+        let want: Vec<RC> = sv.iter().filter(|x| x.0 == *r).copied().collect();
+        let what = format!("get_collection_by_row_to_hashmap({})", r);
+        match l {
+            Err(m) => o.add("by-row-map", &format!("panic:{}", m), format!("{} panicked: {}", what, m)),
+            Ok(v) => {
+                // key = column; value reports (r, key)
+                for (k, own) in v {
+                    if *own != (*r, *k) {
+                        o.add("by-row-map", "key!=own", format!("{}: entry {} holds a cell reporting {}", what, k, fmt_rc(own)));
+                    }
+                }
+                let listed: Vec<RC> = v.iter().map(|(k, _)| (*r, *k)).collect();
+                cmp_listing(&mut o, "by-row-map", &|| what.clone(), &Ok(listed), &want, false);
+            }
+        }
+    }
+    for (c, l) in &obs.by_col_hm {
+        if matches!(l, Ok(v) if v.is_empty()) && !sv.iter().any(|x| x.1 == *c) {
+            continue;
+        }
+        let want: Vec<RC> = sv.iter().filter(|x| x.1 == *c).copied().collect();
+        let what = format!("get_collection_by_column_to_hashmap({})", c);
+        match l {
+            Err(m) => o.add("by-column-map", &format!("panic:{}", m), format!("{} panicked: {}", what, m)),
+            Ok(v) => {
+                for (k, own) in v {
+                    if *own != (*k, *c) {
+                        o.add("by-column-map", "key!=own", format!("{}: entry {} holds a cell reporting {}", what, k, fmt_rc(own)));
+                    }
+                }
+                let listed: Vec<RC> = v.iter().map(|(k, _)| (*k, *c)).collect();
+                cmp_listing(&mut o, "by-column-map", &|| what.clone(), &Ok(listed), &want, false);
+            }
+        }
+    }
+    // 4. by range: the bounding box, the window and a sub-window
+    let bbox = if s.is_empty() { None } else { Some((sv.iter().map(|x| x.0).min().unwrap(), sv.iter().map(|x| x.1).min().unwrap(), sv.iter().map(|x| x.0).max().unwrap(), sv.iter().map(|x| x.1).max().unwrap())) };
+    if let Some((r0, c0, r1, c1)) = bbox {
+        if r0 >= 1 && c0 >= 1 && (r1 - r0 + 1) as u64 * (c1 - c0 + 1) as u64 <= 20000 {
+            check_range(&mut o, ws, &s, r0, c0, r1, c1);
+        }
+    }
+    check_range(&mut o, ws, &s, 1, 1, 3, 3);
+    check_range(&mut o, ws, &s, 2, 2, 4, 2);
+    // 5. highest column / row
+    let want_hi = match bbox {
+        None => (0, 0),
+        Some((_, _, r1, c1)) => (c1, r1),
+    };
+    match &obs.highest {
+        Err(m) => o.add("highest", &format!("panic:{}", m), format!("get_highest_column_and_row() panicked: {}", m)),
+        Ok(h) => {
+            if *h != want_hi {
+                o.add("highest", if h.0 > want_hi.0 || h.1 > want_hi.1 { "too-high" } else { "too-low" }, format!("get_highest_column_and_row() = {:?}, scan of existing cells gives (col {}, row {}); cells {}", h, want_hi.0, want_hi.1, fmt_list(&sv)));
+            }
+        }
+    }
+    match (&obs.highest_c, &obs.highest_r) {
+        (Ok(c), Ok(r)) => {
+            if (*c, *r) != want_hi {
+                o.add("highest", "single-getters", format!("get_highest_column() = {}, get_highest_row() = {}, scan gives (col {}, row {})", c, r, want_hi.0, want_hi.1));
+            }
+        }
+        _ => o.add("highest", "panic:single-getters", "get_highest_column()/get_highest_row() panicked".into()),
+    }
+    // 6. computed dimension: the far corner is the maximum of the scan, the near corner is A1 or the minimum
+    match &obs.dim {
+        Err(m) => o.add("dimension", &format!("panic:{}", m), format!("calculate_worksheet_dimension() panicked: {}", m)),
+        Ok(d) => {
+            let parts: Vec<&str> = d.split(':').collect();
+            let parsed = match parts.len() {
+                1 => parse_a1(parts[0]).map(|p| (p, p)),
+                2 => match (parse_a1(parts[0]), parse_a1(parts[1])) {
+                    (Some(a), Some(b)) => Some((a, b)),
+                    _ => None,
+                },
+                _ => None,
+            };
+            match (parsed, bbox) {
+                (None, _) => o.add("dimension", "unparseable", format!("calculate_worksheet_dimension() = {:?}", d)),
+                (Some((a, b)), None) => {
+                    if a != (1, 1) || b != (1, 1) {
+                        o.add("dimension", "nonempty-for-empty-sheet", format!("calculate_worksheet_dimension() = {:?} but no cell exists", d));
+                    }
+                }
+                (Some((a, b)), Some((r0, c0, r1, c1))) => {
+                    if b != (r1, c1) {
+                        o.add("dimension", "far-corner", format!("calculate_worksheet_dimension() = {:?}, the existing cells end at {}; cells {}", d, a1(c1, r1), fmt_list(&sv)));
+                    }
+                    if a != (1, 1) && a != (r0, c0) {
+                        o.add("dimension", "near-corner", format!("calculate_worksheet_dimension() = {:?}, the existing cells start at {}", d, a1(c0, r0)));
+                    }
+                }
+            }
+        }
+    }
+    // 7. every row of an existing cell is known to the writer (which walks get_row_dimensions() by the rows' own numbers)
+    let known_rows: BTreeSet<u32> = obs.rows.iter().map(|(_, n)| *n).collect();
+    let missing: Vec<RC> = sv.iter().filter(|x| !known_rows.contains(&x.0)).copied().collect();
+    if !missing.is_empty() {
+        o.add("row-table", "row-missing", format!("cell(s) {} exist but their row has no entry in get_row_dimensions() (rows known: {:?})", fmt_list(&missing), known_rows));
+    }
+}
+
+// ---------------------------------------------------------------------------------------------
+// save emission
+
+fn style_is_unset(s: &Style) -> bool {
+    s.get_font().is_none() && s.get_fill().is_none() && s.get_borders().is_none() && s.get_alignment().is_none() && s.get_numbering_format().is_none() && s.get_protection().is_none()
+}
+/// The writer legitimately skips a cell that has neither a value, nor a formula, nor any style component.
+fn is_default_cell(c: &Cell) -> bool {
+    matches!(c.get_raw_value(), CellRawValue::Empty) && !c.is_formula() && style_is_unset(c.get_style())
+}
+
+/// `r` attributes of all `<c>` elements between <sheetData> and </sheetData>, in document order.
+fn scan_c_refs(xml: &str) -> Result<Vec<String>, String> {
+    let b = xml.as_bytes();
+    let mut i = 0;
+    let mut inside = false;
+    let mut out = vec![];
+    while i < b.len() {
+        if b[i] != b'<' {
+            i += 1;
+            continue;
+        }
+        i += 1;
+        if i >= b.len() {
+            break;
+        }
+        if b[i] == b'/' {
+            let st = i + 1;
+            while i < b.len() && b[i] != b'>' {
+                i += 1;
+            }
+            if &xml[st..i.min(b.len())] == "sheetData" {
+                inside = false;
+            }
+            continue;
+        }
+        if b[i] == b'?' || b[i] == b'!' {
+            while i < b.len() && b[i] != b'>' {
+                i += 1;
+            }
+            continue;
+        }
+        let st = i;
+        while i < b.len() && !matches!(b[i], b' ' | b'\t' | b'\r' | b'\n' | b'/' | b'>') {
+            i += 1;
+        }
+        let name = &xml[st..i];
+        // attributes
+        let mut r_attr: Option<String> = None;
+        loop {
+            while i < b.len() && matches!(b[i], b' ' | b'\t' | b'\r' | b'\n') {
+                i += 1;
+            }
+            if i >= b.len() {
+                return Err("unterminated tag".into());
+            }
+            if b[i] == b'>' {
+                i += 1;
+                break;
+            }
+            if b[i] == b'/' {
+                i += 1;
+                continue;
+            }
+            let an = i;
+            while i < b.len() && b[i] != b'=' && b[i] != b'>' {
+                i += 1;
+            }
+            if i >= b.len() || b[i] != b'=' {
+                return Err("attribute without value".into());
+            }
+            let aname = xml[an..i].trim().to_string();
+            i += 1;
+            if i >= b.len() || (b[i] != b'"' && b[i] != b'\'') {
+                return Err("unquoted attribute".into());
+            }
+            let q = b[i];
+            i += 1;
+            let vs = i;
+            while i < b.len() && b[i] != q {
+                i += 1;
+            }
+            if i >= b.len() {
+                return Err("unterminated attribute".into());
+            }
+            if aname == "r" {
+                r_attr = Some(xml[vs..i].to_string());
+            }
+            i += 1;
+        }
+        if name == "sheetData" {
+            inside = true;
+        } else if name == "c" && inside {
+            match r_attr {
+                Some(r) => out.push(r),
+                None => return Err("<c> without r".into()),
+            }
+        }
+    }
+    Ok(out)
+}
+
+fn sheet1_xml(bytes: &[u8]) -> Result<String, String> {
+    let mut z = zip::ZipArchive::new(std::io::Cursor::new(bytes)).map_err(|e| format!("zip: {}", e))?;
+    let mut f = z.by_name("xl/worksheets/sheet1.xml").map_err(|e| format!("sheet1.xml: {}", e))?;
+    let mut s = String::new();
+    f.read_to_string(&mut s).map_err(|e| format!("sheet1.xml: {}", e))?;
+    Ok(s)
+}
+
+fn save_check(book: &Spreadsheet, tags: &[String], out: &mut Vec<Violation>) {
+    let mut o = Out { tags, seen: HashSet::new(), out };
+    let ws = book.get_sheet(&0).unwrap();
+    let map = ws.get_collection_to_hashmap();
+    let bytes = match dump::save_bytes(book, false) {
+        Ok(b) => b,
+        Err(m) => {
+            o.add("save-emission", &format!("save-failed:{}", panic_class(&m)), format!("write_writer failed: {}", m));
+            return;
+        }
+    };
+    let refs = match sheet1_xml(&bytes).and_then(|x| scan_c_refs(&x)) {
+        Ok(r) => r,
+        Err(m) => {
+            o.add("save-emission", "unreadable-sheet-xml", m);
+            return;
+        }
+    };
+    let mut emitted: BTreeMap<RC, u32> = BTreeMap::new();
+    for r in &refs {
+        match parse_a1(r) {
+            Some(rc) => *emitted.entry(rc).or_insert(0) += 1,
+            None => o.add("save-emission", "bad-reference", format!("<c r={:?}> in the sheet XML", r)),
+        }
+    }
+    let twice: Vec<RC> = emitted.iter().filter(|(_, n)| **n > 1).map(|(k, _)| *k).collect();
+    if !twice.is_empty() {
+        o.add("save-emission", "emitted-twice", format!("cell(s) {} are written more than once", fmt_list(&twice)));
+    }
+    let phantom: Vec<RC> = emitted.keys().filter(|k| !map.contains_key(k)).copied().collect();
+    if !phantom.is_empty() {
+        o.add("save-emission", "phantom-emitted", format!("cell(s) {} are written but do not exist", fmt_list(&phantom)));
+    }
+    let mut lost: Vec<RC> = map.iter().filter(|(k, c)| !is_default_cell(c) && !emitted.contains_key(k)).map(|(k, _)| *k).collect();
+    lost.sort();
+    if !lost.is_empty() {
+        let mut all: Vec<RC> = map.keys().copied().collect();
+        all.sort();
+        let mut rows: Vec<u32> = ws.get_row_dimensions().iter().map(|r| *r.get_row_num()).collect();
+        rows.sort();
+        o.add("save-emission", "not-emitted", format!("existing non-default cell(s) {} are not written to the sheet XML; existing cells {}, written {}, row table {:?}", fmt_list(&lost), fmt_list(&all), fmt_list(&emitted.keys().copied().collect::<Vec<_>>()), rows));
+    }
+}
+
+// ---------------------------------------------------------------------------------------------
+// state key
+
+fn push_list(s: &mut String, v: &Result<Vec<RC>, String>) {
+    match v {
+        Err(m) => {
+            s.push_str("PANIC:");
+            s.push_str(m);
+        }
+        Ok(l) => {
+            for (r, c) in l {
+                let _ = write!(s, "{},{} ", r, c);
+            }
+        }
+    }
+    s.push(';');
+}
+
+// ---------------------------------------------------------------------------------------------
+// the machine
+
+#[derive(Clone)]
+struct St {
+    book: Spreadsheet,
+    key: u128,
+    depth: usize,
+}
+
+struct Mach {
+    ops: Vec<Op>,
+    /// the save-emission clause is evaluated in states of depth <= save_max_depth (once per distinct state key)
+    save_max_depth: usize,
+    saved: RefCell<HashSet<u128>>,
+    styles: RefCell<Vec<(Style, u64)>>,
+    counters: RefCell<BTreeMap<String, u64>>,
+    timing: bool,
+}
+
+impl Mach {
+    fn new(ops: Vec<Op>, save_max_depth: usize) -> Mach {
+        Mach { ops, save_max_depth, saved: RefCell::new(HashSet::new()), styles: RefCell::new(vec![]), counters: RefCell::new(BTreeMap::new()), timing: std::env::var("UV_C10_DEBUG").is_ok() }
+    }
+    fn count(&self, k: &str, n: u64) {
+        *self.counters.borrow_mut().entry(k.to_string()).or_insert(0) += n;
+    }
+    fn style_hash(&self, s: &Style) -> u64 {
+        let mut cache = self.styles.borrow_mut();
+        if let Some((_, h)) = cache.iter().find(|(x, _)| x == s) {
+            return *h;
+        }
+        let h = fnv(dump::style_p(s).to_string().as_bytes());
+        cache.push((s.clone(), h));
+        h
+    }
+    /// Hash of everything later operations (and the writer) can observe of the sheet.
+    fn key_of_state(&self, obs: &Obs, ws: &Worksheet) -> u128 {
+        let mut s = String::with_capacity(4096);
+        let map = ws.get_collection_to_hashmap();
+        for (k, own) in &obs.cells {
+            let c = map.get(k).unwrap();
+            let _ = write!(s, "{},{}={},{}:{}{}|", k.0, k.1, own.0, own.1, *c.get_coordinate().get_is_lock_col() as u8, *c.get_coordinate().get_is_lock_row() as u8);
+            s.push_str(&value_sig(c.get_cell_value()));
+            if let CellRawValue::Numeric(x) = c.get_raw_value() {
+                let _ = write!(s, "|{:016x}", x.to_bits());
+            }
+            if let Some(h) = c.get_hyperlink() {
+                let _ = write!(s, "|link:{}:{}", h.get_url(), h.get_location());
+            }
+            let _ = write!(s, "|{:016x};", self.style_hash(c.get_style()));
+        }
+        s.push_str("\nU:");
+        let mut u = obs.unsorted.clone();
+        if let Ok(v) = &mut u {
+            v.sort();
+        }
+        push_list(&mut s, &u);
+        s.push_str("\nS:");
+        push_list(&mut s, &obs.sorted);
+        s.push_str("\nR:");
+        for (r, l) in &obs.by_row {
+            if !matches!(l, Ok(v) if v.is_empty()) {
+                let _ = write!(s, "{}:", r);
+                push_list(&mut s, l);
+            }
+        }
+        for (r, l) in &obs.by_row_hm {
+            match l {
+                Ok(v) if v.is_empty() => {}
+                Ok(v) => {
+                    let _ = write!(s, "{}:{:?};", r, v);
+                }
+                Err(m) => {
+                    let _ = write!(s, "{}:PANIC:{};", r, m);
+                }
+            }
+        }
+        s.push_str("\nC:");
+        for (c, l) in &obs.by_col {
+            if !matches!(l, Ok(v) if v.is_empty()) {
+                let _ = write!(s, "{}:", c);
+                push_list(&mut s, l);
+            }
+        }
+        for (c, l) in &obs.by_col_hm {
+            match l {
+                Ok(v) if v.is_empty() => {}
+                Ok(v) => {
+                    let _ = write!(s, "{}:{:?};", c, v);
+                }
+                Err(m) => {
+                    let _ = write!(s, "{}:PANIC:{};", c, m);
+                }
+            }
+        }
+        let _ = write!(s, "\nH:{:?}/{:?}/{:?} D:{:?}", obs.highest, obs.highest_c, obs.highest_r, obs.dim);
+        s.push_str("\nROWS:");
+        let rows = ws.get_row_dimensions_to_hashmap();
+        for (k, _) in &obs.rows {
+            let r = rows.get(k).unwrap();
+            let _ = write!(s, 
+                "{}={}:{:016x},{:016x},{},{},{},{:016x};",
+                k,
+                r.get_row_num(),
+                r.get_height().to_bits(),
+                r.get_descent().to_bits(),
+                r.get_thick_bot(),
+                r.get_custom_height(),
+                r.get_hidden(),
+                self.style_hash(r.get_style())
+            );
+        }
+        s.push_str("\nCOLS:");
+        // vector order among equal numbers is observable (first match wins); order among different numbers is not
+        let mut cols: Vec<&Column> = ws.get_column_dimensions().iter().collect();
+        cols.sort_by_key(|c| *c.get_col_num());
+        for c in cols {
+            let _ = write!(s, "{}:{:016x},{},{},{},{:016x};", c.get_col_num(), c.get_width().to_bits(), c.get_hidden(), c.get_best_fit(), c.get_auto_width(), self.style_hash(c.get_style()));
+        }
+        s.push_str("\nMERGE:");
+        for m in ws.get_merge_cells() {
+            // numeric projection: Range::get_range() panics on the column/row 0 that removals can produce (a C07 matter)
+            let _ = write!(s, 
+                "{:?},{:?},{:?},{:?};",
+                m.get_coordinate_start_col().map(|x| *x.get_num()),
+                m.get_coordinate_start_row().map(|x| *x.get_num()),
+                m.get_coordinate_end_col().map(|x| *x.get_num()),
+                m.get_coordinate_end_row().map(|x| *x.get_num())
+            );
+        }
+        key_of(&s)
+    }
+
+    /// Observe, evaluate the invariant (and the save-emission clause when due) on `book`.
+    fn evaluate(&self, book: &Spreadsheet, depth: usize, tags: &[String], out: &mut Vec<Violation>) -> u128 {
+        let ws = book.get_sheet(&0).unwrap();
+        let t0 = std::time::Instant::now();
+        let obs = observe(ws);
+        let t1 = std::time::Instant::now();
+        check(&obs, ws, tags, out);
+        let t2 = std::time::Instant::now();
+        let key = self.key_of_state(&obs, ws);
+        let t3 = std::time::Instant::now();
+        if depth <= self.save_max_depth && self.saved.borrow_mut().insert(key) {
+            save_check(book, tags, out);
+            self.count("save_checks", 1);
+        }
+        if self.timing {
+            self.count("ns_observe", (t1 - t0).as_nanos() as u64);
+            self.count("ns_check", (t2 - t1).as_nanos() as u64);
+            self.count("ns_key", (t3 - t2).as_nanos() as u64);
+            self.count("ns_save", t3.elapsed().as_nanos() as u64);
+        }
+        self.count("invariant_evaluations", 1);
+        if obs.cells.is_empty() {
+            self.count("states_with_empty_store", 1);
+        }
+        key
+    }
+
+    fn init_state(&self, book: Spreadsheet, out: &mut Vec<Violation>) -> St {
+        let key = self.evaluate(&book, 0, &["initial-state".to_string()], out);
+        St { book, key, depth: 0 }
+    }
+}
+
+impl Machine for Mach {
+    type S = St;
+    type Op = Op;
+    fn ops(&self, _s: &St, _depth: usize) -> Vec<Op> {
+        self.ops.clone()
+    }
+    fn op_json(&self, op: &Op) -> Value {
+        op.json()
+    }
+    fn step(&self, s: &St, op: &Op, out: &mut Vec<Violation>) -> Option<St> {
+        let t0 = std::time::Instant::now();
+        let mut b = s.book.clone();
+        let t1 = std::time::Instant::now();
+        let res = catch_unwind(AssertUnwindSafe(|| apply(b.get_sheet_mut(&0).unwrap(), op)));
+        if self.timing {
+            self.count("ns_clone", (t1 - t0).as_nanos() as u64);
+            self.count("ns_apply", t1.elapsed().as_nanos() as u64);
+        }
+        let kind = op.kind();
+        let depth = s.depth + 1;
+        match res {
+            Err(e) => {
+                // no successor, but the object after the unwind is a state a caller can hold: it must be coherent too
+                let msg = panic_class(&panic_msg(&e));
+                self.count("panicking_state_op_pairs", 1);
+                self.count(&format!("panics[{}] {}", kind, msg), 1);
+                let tags = vec!["post-panic".to_string(), format!("post-panic:{}", kind)];
+                let n0 = out.len();
+                self.evaluate(&b, depth, &tags, out);
+                for v in out[n0..].iter_mut() {
+                    v.detail = format!("after {} panicked ({}): {}", kind, msg, v.detail);
+                }
+                None
+            }
+            Ok(()) => {
+                let tags = vec![kind.to_string()];
+                let key = self.evaluate(&b, depth, &tags, out);
+                if !out.is_empty() {
+                    // an incoherent store is reported once, at the operation that broke it; its successors are not explored
+                    self.count("violating_states_not_expanded", 1);
+                    return None;
+                }
+                Some(St { book: b, key, depth })
+            }
+        }
+    }
+    fn key(&self, s: &St) -> u128 {
+        s.key
+    }
+}
+
+// ---------------------------------------------------------------------------------------------
+// pool space: one case = (seed, prefix of 1 or 2 operations); the rest of the history is explored by bfs
+
+struct Hist {
+    name: &'static str,
+    ops: Vec<Op>,
+    depth: usize,
+    prefix_len: usize,
+    save_max_depth: usize,
+}
+impl Hist {
+    fn per_seed(&self) -> u64 {
+        (self.ops.len() as u64).pow(self.prefix_len as u32)
+    }
+    fn decode(&self, i: u64) -> (usize, Vec<usize>) {
+        let seed = (i / self.per_seed()) as usize;
+        let mut rest = i % self.per_seed();
+        let n = self.ops.len() as u64;
+        let mut p = vec![0usize; self.prefix_len];
+        for k in (0..self.prefix_len).rev() {
+            p[k] = (rest % n) as usize;
+            rest /= n;
+        }
+        (seed, p)
+    }
+}
+impl Space for Hist {
+    fn len(&self) -> u64 {
+        SEEDS.len() as u64 * self.per_seed()
+    }
+    fn describe(&self, i: u64) -> Value {
+        let (seed, p) = self.decode(i);
+        json!({"space": self.name, "seed": SEEDS[seed], "prefix": p.iter().map(|k| self.ops[*k].json()).collect::<Vec<_>>(), "depth": self.depth})
+    }
+    fn tags(&self, i: u64) -> Vec<String> {
+        let (_, p) = self.decode(i);
+        p.iter().map(|k| self.ops[*k].kind().to_string()).collect()
+    }
+    fn run(&self, i: u64, sink: &mut Sink) {
+        let (seed, prefix) = self.decode(i);
+        if std::env::var("UV_C10_BT").is_ok() {
+            std::panic::set_hook(Box::new(|info| eprintln!("PANIC {}\n{}", info, std::backtrace::Backtrace::force_capture())));
+        }
+        let m = Mach::new(self.ops.clone(), self.save_max_depth);
+        let mut vs = vec![];
+        let mut cur = m.init_state(seed_book(seed), &mut vs);
+        for mut v in vs.drain(..) {
+            v.case = json!({"init": SEEDS[seed], "path": []});
+            sink.violations.push(v);
+        }
+        let mut desc: Vec<Value> = vec![];
+        let mut dead = false;
+        for k in 0..self.prefix_len - 1 {
+            let op = self.ops[prefix[k]].clone();
+            desc.push(op.json());
+            let mut vs = vec![];
+            let succ = m.step(&cur, &op, &mut vs);
+            sink.count(&format!("{}.depth{}_transitions_repeated_in_every_case", self.name, k + 1), 1);
+            for mut v in vs {
+                v.case = json!({"init": SEEDS[seed], "path": desc});
+                sink.violations.push(v);
+            }
+            match succ {
+                Some(s) => cur = s,
+                None => {
+                    dead = true;
+                    break;
+                }
+            }
+        }
+        if !dead {
+            let off = self.prefix_len - 1;
+            let mut tmp = Sink::new();
+            tmp.beat = sink.beat;
+            let st = bfs(&m, cur, json!({"seed": SEEDS[seed], "prefix": desc}), Some(prefix[self.prefix_len - 1]), self.depth - off, 4_000_000, &mut tmp);
+            sink.evaluations += tmp.evaluations;
+            sink.hashes.append(&mut tmp.hashes);
+            sink.violations.append(&mut tmp.violations);
+            for (k, n) in tmp.counters {
+                if let Some(rest) = k.strip_prefix("depth") {
+                    let digits: String = rest.chars().take_while(|c| c.is_ascii_digit()).collect();
+                    let d: usize = digits.parse().unwrap_or(0);
+                    sink.count(&format!("{}.depth{}{}", self.name, d + off, &rest[digits.len()..]), n);
+                } else {
+                    sink.count(&k, n);
+                }
+            }
+            if st.capped {
+                sink.count(&format!("{}.capped_cases", self.name), 1);
+            }
+        } else {
+            sink.count(&format!("{}.cases_ended_in_prefix", self.name), 1);
+        }
+        for (k, n) in m.counters.borrow().iter() {
+            sink.count(k, *n);
+            if m.timing {
+                eprintln!("{} {}", k, n);
+            }
+        }
+    }
+}
+
+pub fn space(tier: Tier, id: &str) -> Option<Box<dyn Space>> {
+    match (tier, id) {
+        (Tier::Quick, "d3") => Some(Box::new(Hist { name: "d3", ops: full_alphabet(), depth: 3, prefix_len: 1, save_max_depth: 2 })),
+        (Tier::Thorough, "d4") => Some(Box::new(Hist { name: "d4", ops: full_alphabet(), depth: 4, prefix_len: 1, save_max_depth: usize::MAX })),
+        (Tier::Thorough, "d6") => Some(Box::new(Hist { name: "d6", ops: deep_alphabet(), depth: 6, prefix_len: 2, save_max_depth: usize::MAX })),
+        _ => None,
+    }
+}
+
+fn replay(tier: Tier, case: &Value) -> Vec<Violation> {
+    replay_e1(space(tier, case["_space"].as_str().unwrap_or("")), case)
+}
+
+fn run(ctx: &Ctx) -> i32 {
+    let thorough = ctx.tier == Tier::Thorough;
+    let ids: Vec<&'static str> = if thorough { vec!["d4", "d6"] } else { vec!["d3"] };
+    let spaces = ids.iter().map(|id| (*id, space(ctx.tier, id).unwrap())).collect();
+    let full: Vec<Value> = full_alphabet().iter().map(|o| o.json()).collect();
+    let deep: Vec<Value> = deep_alphabet().iter().map(|o| o.json()).collect();
+    run_e1(
+        ctx,
+        E1Spec {
+            spaces,
+            cfg: PoolCfg { chunk: 1, case_timeout: std::time::Duration::from_secs(120), ..Default::default() },
+            level: "model_checking",
+            rule: "breadth-first exploration of ALL operation histories up to the stated depth over the stated alphabet, from each seeded initial sheet, on the real Worksheet inside a real Spreadsheet (cloned per node). One pool case = (seed, first operation[, second operation]); inside a case states with equal key are merged (key = hash of every cell's map key, own coordinate, value, style, both listings, every by-row/by-column listing, highest/dimension, the row table, the column table and the merge list). In EVERY reached state (including the object left behind by a panicking operation) the invariant is evaluated: brute-force scan of the key set of get_collection_to_hashmap() against own coordinates, get_cell, get_cell_collection, get_cell_collection_sorted (row-major), get_collection_by_row/_by_column (+_to_hashmap) for every row/column of the scan area, get_cell_value_by_range (bounding box, A1:C3, B2:B4), get_highest_column_and_row, calculate_worksheet_dimension, get_row_dimensions; save emission (write_writer into memory, own scanner over xl/worksheets/sheet1.xml) once per distinct state of depth <= save_emission_max_depth. A state that violates the invariant is reported at the operation that produced it and is not expanded. distinct_nontrivial = number of distinct state keys over all cases".into(),
+            alphabets: json!({"seeds": SEEDS, "operations_full": full, "operations_full_count": full.len(), "operations_deep": deep, "operations_deep_count": deep.len(),
+                "styles": ["0: nothing set", "1: solid fill", "2: bold font"], "window": "A1:C3", "far_cell": a1(FAR.0, FAR.1)}),
+            bounds: if thorough {
+                json!({"d4": "every history of length <= 4 over the full alphabet from each seed; save emission in every distinct state", "d6": "every history of length <= 6 over the 12-operation alphabet from each seed; save emission in every distinct state"})
+            } else {
+                json!({"d3": "every history of length <= 3 over the full alphabet from each seed", "save_emission_max_depth": 2})
+            },
+            exhaustive: true,
+            caps_hit: vec![],
+            assumptions: vec![
+                "histories longer than the depth bound (the statement names lengths up to 60) are covered only up to the bound; merged states make longer histories that revisit a seen state redundant".into(),
+                "an operation that panics yields no successor (C10 does not promise absence of panics); the object after the unwind is checked like any other state".into(),
+                "the dimension is accepted when its far corner is the maximum of the scan and its near corner is A1 or the minimum; for an empty store only A1 is accepted; highest = (0,0) for an empty store".into(),
+                "a cell with no value, no formula and no style component may be omitted from the sheet XML".into(),
+            ],
+            min_distinct: if thorough { 100_000 } else { 10_000 },
+        },
+    )
 }
